@@ -42,6 +42,7 @@ type Violation struct {
 	Harness string            `json:"harness"`
 	Kind    string            `json:"kind"` // assert | panic | deadlock | race
 	Label   string            `json:"label"`
+	Tier    string            `json:"tier,omitempty"` // tier of the run that found it (the native replay runs the harness in the same tier)
 	Inputs  map[string]any    `json:"inputs"`
 	Sched   []int             `json:"sched,omitempty"`
 	Trace   []string          `json:"trace,omitempty"`
@@ -381,7 +382,7 @@ func (w *World) schedDecisions() []int {
 
 func (w *World) reportViolation(kind, label, extra string) {
 	if w.concrete != nil {
-		w.violations = append(w.violations, &Violation{Harness: w.eng.cfg.Entry, Kind: kind, Label: label})
+		w.violations = append(w.violations, &Violation{Harness: w.eng.cfg.Entry, Kind: kind, Label: label, Tier: w.eng.cfg.Tier})
 		return
 	}
 	// known findings: look for a violation outside the listed failing inputs first
@@ -423,7 +424,7 @@ func (w *World) reportViolation(kind, label, extra string) {
 			w.violations[len(w.violations)-1].Known = knownDesc
 		}
 	}()
-	v := &Violation{Harness: w.eng.cfg.Entry, Kind: kind, Label: label, Inputs: inputs, Sched: w.schedDecisions(),
+	v := &Violation{Harness: w.eng.cfg.Entry, Kind: kind, Label: label, Tier: w.eng.cfg.Tier, Inputs: inputs, Sched: w.schedDecisions(),
 		Path: append([]Decision{}, w.trace...)}
 	if len(w.log) > 0 {
 		v.Trace = append([]string{}, w.log...)
